@@ -60,6 +60,8 @@ func RunOne(driver, tier string, seed uint64, index int, tf *TraceFile, log bool
 	if simrt.ResetCaches != nil {
 		simrt.ResetCaches()
 	}
+	// Safety net: library code that a driver runs outside Op still cannot run away.
+	simrt.SetStepBudget(20 * DefaultBudget)
 	c := newCtx(driver, tier, index, rs)
 	c.Replay = tf != nil
 	c.logOn = log
